@@ -87,7 +87,16 @@ FIXED_SPECS: list[list[list[list]]] = [
     [[R("200"), R("418")], [R("204", None), R("503")], [R("200"), R("default")]],
     [[R("20"), R("404")]],
     [[R("404"), R("200"), R("default")]],                        # order in the document differs from priority
+    # F06e: a model class named like an exception class the module raises
+    [[R("200", "ref:NotFoundError"), R("404")]],
+    [[R("200", "ref:ClientError"), R("404")]],
+    [[R("200", "ref:ServerError"), R("503", None)]],
+    [[R("200", "ref:Error499"), R("499"), R("404")]],
+    [[R("200", "ref:ConflictError"), R("404")], [R("200"), R("409")]],   # shadowing reaches a sibling operation
+    [[R("200", "ref:Item"), R("404")]],                                  # harmless model name
 ]
+COLLIDING = ["NotFoundError", "ClientError", "ServerError", "BadRequestError", "ConflictError", "InternalServerError",
+             "Error499", "Error599", "Item", "Thing"]
 
 
 def gen_op(rng, allow_bad: bool) -> list:
@@ -103,7 +112,8 @@ def gen_op(rng, allow_bad: bool) -> list:
     if not codes:
         codes = [rng.choice(OK_CODES + ERR_CODES + ["default"])]
     rng.shuffle(codes)
-    return [R(c, "json" if rng.random() < 0.6 else None) for c in codes]
+    return [R(c, ("ref:" + rng.choice(COLLIDING)) if c in ("200", "201") and rng.random() < 0.25
+              else "json" if rng.random() < 0.6 else None) for c in codes]
 
 
 def gen_spec(rng) -> list:
@@ -119,13 +129,30 @@ def build_document(spec: list) -> dict:
             r: dict = {"description": "d"}
             if content == "json":
                 r["content"] = {"application/json": {"schema": OBJ}}
+            elif content is not None and content.startswith("ref:"):
+                r["content"] = {"application/json": {"schema": {"$ref": "#/components/schemas/" + content[4:]}}}
             elif content == "sse":
                 r["content"] = {"text/event-stream": {"schema": OBJ}}
             elif content == "text":
                 r["content"] = {"text/plain": {"schema": {"type": "string"}}}
             responses[code] = r
         paths[f"/o{i}"] = {"get": {"operationId": f"op{i}", "tags": ["t"], "responses": responses}}
-    return {"openapi": "3.0.3", "info": {"title": "T", "version": "1.0"}, "paths": paths}
+    doc = {"openapi": "3.0.3", "info": {"title": "T", "version": "1.0"}, "paths": paths}
+    names = model_names(spec)
+    if names:
+        doc["components"] = {"schemas": {n: OBJ for n in names}}
+    return doc
+
+
+def model_names(spec: list) -> list[str]:
+    """component schemas referenced by 2xx bodies: their classes are imported BY NAME into the endpoints module.
+    Domain: names the class-name sanitiser leaves unchanged (checked against the generated import lines)."""
+    out: list[str] = []
+    for op in spec:
+        for code, content in op:
+            if content is not None and content.startswith("ref:") and code.startswith("2") and content[4:] not in out:
+                out.append(content[4:])
+    return out
 
 
 def declared_statuses(spec: list) -> list[int]:
@@ -200,9 +227,14 @@ async def run_client(cm, cfgm, exc, job, shapes):
             mro = [c.__name__ for c in type(e).__mro__]
             mro = mro[: mro.index("Exception") + 1] if "Exception" in mro else mro
             sc = getattr(e, "status_code", None)
-            files = [f.filename.replace("\\", "/") for f in traceback.extract_tb(e.__traceback__)]
+            frames = traceback.extract_tb(e.__traceback__)
+            files = [f.filename.replace("\\", "/") for f in frames]
+            ep = [f for f in frames if "/endpoints/" in f.filename.replace("\\", "/")]
+            # a TypeError thrown by the `raise X(...)` statement itself (X does not denote the exception class) is NOT a
+            # decode crash: it is the dispatch outcome "Crashed" of the model
             where = ("transport" if any(f.endswith("/core/http_transport.py") for f in files)
-                     else "endpoint" if any("/endpoints/" in f for f in files) else "other")
+                     else "endpoint_raise" if ep and (ep[-1].line or "").lstrip().startswith("raise ") and frames[-1] is ep[-1]
+                     else "endpoint" if ep else "other")
             rows.append(["exc", mro, isinstance(e, exc.HTTPError), isinstance(e, exc.ClientError),
                          isinstance(e, exc.ServerError), sc if isinstance(sc, int) else None,
                          cur["sent"] is not None and getattr(e, "response", None) is cur["sent"], str(e)[:120], where])
@@ -327,7 +359,7 @@ def c_obs(obs: list) -> str:
 def c_case(c: dict) -> str:
     i = c["input"]
     return (f"(({'Bundled' if i['kind'] == 'bundled' else 'Custom'}, {clist(c_op(o) for o in i['spec'])}, "
-            f"{i['op']}%nat, {i['st']}), {c_obs(c['obs'])})")
+            f"{clist(cstr(n) for n in model_names(i['spec']))}, {i['op']}%nat, {i['st']}), {c_obs(c['obs'])})")
 
 
 # ---------------------------------------------------------------- function-level relation: _get_primary_response x3
